@@ -236,12 +236,46 @@ Qed.
 (* ---------- what goes out: the frames written, as the reference server of RFC 6455 decodes them (most recent first) ---------- *)
 Definition wview (w : bytes) : N * bytes :=
   match server_decode w with Some (f, []) => (f_op f, f_payload f) | _ => (255, w) end.
-Fixpoint writes (tr : list titem) : list (N * bytes) :=
+(* ... by the LIBRARY: the trace is most recent first, and do_actions puts the marker TCall r right behind (= in front of, in
+   this order) whatever the application's call wrote; a write reported by such a marker is the application's and is skipped *)
+Fixpoint lw (after_call : bool) (tr : list titem) : list (N * bytes) :=
   match tr with
   | [] => []
-  | TWrite w :: r => wview w :: writes r
-  | _ :: r => writes r
+  | TCall _ :: r => lw true r
+  | TWrite w :: r => if after_call then lw false r else wview w :: lw false r
+  | _ :: r => lw false r
   end.
+Definition writes (tr : list titem) : list (N * bytes) := lw false tr.
+Lemma writes_write w r : writes (TWrite w :: r) = wview w :: writes r.
+Proof. reflexivity. Qed.
+Lemma writes_call x r : writes (TCall x :: r) = lw true r.
+Proof. reflexivity. Qed.
+(* behind a call marker: the call's own write (and the deflate record of a compressed send) is not the library's *)
+Definition no_write_head (tr : list titem) : Prop := match tr with TWrite _ :: _ => False | _ => True end.
+Lemma lw_true_no_write tr : no_write_head tr -> lw true tr = writes tr.
+Proof. destruct tr as [|[] r]; cbn; intros H; try reflexivity; contradiction. Qed.
+(* every write, the application's included; the library's writes are a subsequence of it, in the same order *)
+Fixpoint all_writes (tr : list titem) : list (N * bytes) :=
+  match tr with [] => [] | TWrite w :: r => wview w :: all_writes r | _ :: r => all_writes r end.
+Inductive subseq {A : Type} : list A -> list A -> Prop :=
+| subseq_nil : subseq [] []
+| subseq_skip x l m : subseq l m -> subseq l (x :: m)
+| subseq_keep x l m : subseq l m -> subseq (x :: l) (x :: m).
+Lemma lw_subseq tr : forall b, subseq (lw b tr) (all_writes tr).
+Proof.
+  induction tr as [|i r IH]; intros b; [constructor|].
+  destruct i; cbn [lw all_writes]; try apply IH.
+  destruct b; [apply subseq_skip|apply subseq_keep]; apply IH.
+Qed.
+Lemma writes_subseq tr : subseq (writes tr) (all_writes tr).
+Proof. apply lw_subseq. Qed.
+(* an application that made no call: nothing is skipped *)
+Lemma writes_all_without_calls tr : Forall (fun i => match i with TCall _ => False | _ => True end) tr -> writes tr = all_writes tr.
+Proof.
+  unfold writes. induction 1 as [|i r Hi _ IH]; [reflexivity|]. destruct i; cbn [lw all_writes]; try exact IH; try contradiction.
+  rewrite IH. reflexivity.
+Qed.
+
 (* the transport works: the socket is open, no write fault is scheduled, masking keys are 4 bytes *)
 Definition wok (c : conn) : Prop := k_sock c = true /\ k_wfaults c = [] /\ keys_ok c.
 
@@ -262,7 +296,7 @@ Proof.
   { intros c0 key A B C D E. unfold write, pop_wfault. rewrite A, B, C, D. cbn [negb].
     exists (emit (TWrite (build op false key p)) c0). split; [reflexivity|]. split.
     - change (k_tr (emit (TWrite (build op false key p)) c0)) with (TWrite (build op false key p) :: k_tr c0).
-      cbn [writes]. rewrite (wview_build op key p E Ho Hp). reflexivity.
+      rewrite writes_write. rewrite (wview_build op key p E Ho Hp). reflexivity.
     - repeat split; auto. }
   destruct (k_keys c) as [|k ks] eqn:Ek.
   - destruct (W c [x00; x00; x00; x00] Hs Hcl Hcg Hw eq_refl) as (c1 & E1 & W1 & S1 & F1 & K1).
@@ -313,11 +347,99 @@ Proof.
   - rewrite S3. cbn. exact B.
 Qed.
 
+(* ---------- what a sending application adds to the trace: never a write of the library's ---------- *)
+Lemma send_frame_trace3 c op r p :
+  exists w, k_tr (fst (send_frame c op r p)) = k_tr c \/ k_tr (fst (send_frame c op r p)) = TWrite w :: k_tr c \/
+            k_tr (fst (send_frame c op r p)) = TWriteFail w :: k_tr c.
+Proof.
+  unfold send_frame, pop_key. destruct (k_keys c) as [|k ks].
+  - exists (build op r [x00; x00; x00; x00] p).
+    destruct (write_cases c (build op r [x00; x00; x00; x00] p) (op =? OP_CLOSE)) as [(x & E & _)|[(c2 & E & Ht & _)|(c2 & E & Ht)]];
+      rewrite E; cbn [fst]; auto.
+  - exists (build op r k p). set (c1 := c <| k_keys := ks |>).
+    destruct (write_cases c1 (build op r k p) (op =? OP_CLOSE)) as [(x & E & _)|[(c2 & E & Ht & _)|(c2 & E & Ht)]];
+      rewrite E; cbn [fst]; auto.
+Qed.
+
+Lemma lw_true_after_send tr tr' : no_write_head tr ->
+  (exists w, tr' = tr \/ tr' = TWrite w :: tr \/ tr' = TWriteFail w :: tr) -> lw true tr' = writes tr.
+Proof.
+  intros H (w & [->|[->| ->]]); [apply lw_true_no_write; exact H|reflexivity|reflexivity].
+Qed.
+
+Lemma api_send_writes c a : send_action (ACall a) -> no_write_head (k_tr c) ->
+  lw true (k_tr (fst (api_call c a))) = writes (k_tr c).
+Proof.
+  intros Ha Hh. destruct a as [p z|p z|p|p|code reason]; cbn [api_call send_action] in *; try contradiction.
+  - unfold send_data. destruct (k_deflate c) as [d|]; [|apply lw_true_after_send; [exact Hh|apply send_frame_trace3]].
+    destruct z; [|apply lw_true_after_send; [exact Hh|apply send_frame_trace3]].
+    destruct (k_ctape c) as [|z0 zs]; cbv zeta; destruct (c_reset d);
+      match goal with |- context [send_frame ?c3 OP_TEXT true ?zz] =>
+        destruct (send_frame_trace3 c3 OP_TEXT true zz) as (w & [E|[E|E]]); rewrite E; cbn; try reflexivity end.
+  - unfold send_data. destruct (k_deflate c) as [d|]; [|apply lw_true_after_send; [exact Hh|apply send_frame_trace3]].
+    destruct z; [|apply lw_true_after_send; [exact Hh|apply send_frame_trace3]].
+    destruct (k_ctape c) as [|z0 zs]; cbv zeta; destruct (c_reset d);
+      match goal with |- context [send_frame ?c3 OP_BINARY true ?zz] =>
+        destruct (send_frame_trace3 c3 OP_BINARY true zz) as (w & [E|[E|E]]); rewrite E; cbn; try reflexivity end.
+  - destruct (125 <? blen p); [apply lw_true_no_write; exact Hh|apply lw_true_after_send; [exact Hh|apply send_frame_trace3]].
+  - destruct (125 <? blen p); [apply lw_true_no_write; exact Hh|apply lw_true_after_send; [exact Hh|apply send_frame_trace3]].
+Qed.
+
+Lemma do_actions_writes acts : Forall send_action acts -> forall c, no_write_head (k_tr c) ->
+  writes (k_tr (fst (do_actions c acts))) = writes (k_tr c).
+Proof.
+  induction 1 as [|a acts Ha _ IH]; intros c Hh; [reflexivity|].
+  destruct a as [cl|w]; [|contradiction]. cbn [do_actions].
+  pose proof (api_send_writes c cl Ha Hh) as A. destruct (api_call c cl) as [c1 r]. cbn [fst] in A.
+  rewrite IH by exact I. change (k_tr (emit (TCall r) c1)) with (TCall r :: k_tr c1). rewrite writes_call. exact A.
+Qed.
+
+(* the transport keeps working under a sending application *)
+Lemma send_frame_wok c op r p : wok c -> wok (fst (send_frame c op r p)).
+Proof.
+  intros (Hs & Hw & Hk). unfold send_frame, pop_key.
+  assert (W : forall c0 d fl, k_sock c0 = true -> k_wfaults c0 = [] -> keys_ok c0 -> wok (fst (write c0 d fl))).
+  { intros c0 d fl A B C. unfold write. rewrite A. cbn [negb].
+    destruct (k_closed c0); [repeat split; assumption|]. destruct (k_closing c0); [repeat split; assumption|].
+    unfold pop_wfault. destruct fl; cbn; rewrite ?B; cbn; repeat split; assumption. }
+  destruct (k_keys c) as [|k ks] eqn:Ek; [apply W; assumption|].
+  apply W; cbn; try assumption. unfold keys_ok in *. rewrite Ek in Hk. inversion Hk; assumption.
+Qed.
+
+Lemma api_send_wok c a : send_action (ACall a) -> wok c -> wok (fst (api_call c a)).
+Proof.
+  intros Ha Hw. destruct a as [p z|p z|p|p|code reason]; cbn [api_call send_action] in *; try contradiction.
+  - unfold send_data. destruct (k_deflate c) as [d|]; [|apply send_frame_wok; exact Hw].
+    destruct z; [|apply send_frame_wok; exact Hw].
+    destruct Hw as (A & B & C). destruct (k_ctape c) as [|z0 zs]; cbv zeta; destruct (c_reset d); apply send_frame_wok; repeat split; assumption.
+  - unfold send_data. destruct (k_deflate c) as [d|]; [|apply send_frame_wok; exact Hw].
+    destruct z; [|apply send_frame_wok; exact Hw].
+    destruct Hw as (A & B & C). destruct (k_ctape c) as [|z0 zs]; cbv zeta; destruct (c_reset d); apply send_frame_wok; repeat split; assumption.
+  - destruct (125 <? blen p); [exact Hw|apply send_frame_wok; exact Hw].
+  - destruct (125 <? blen p); [exact Hw|apply send_frame_wok; exact Hw].
+Qed.
+
+Lemma do_actions_wok acts : Forall send_action acts -> forall c, wok c -> wok (fst (do_actions c acts)).
+Proof.
+  induction 1 as [|a acts Ha _ IH]; intros c Hw; [exact Hw|].
+  destruct a as [cl|w]; [|contradiction]. cbn [do_actions].
+  pose proof (api_send_wok c cl Ha Hw) as A. destruct (api_call c cl) as [c1 r]. cbn [fst] in A.
+  apply IH. exact A.
+Qed.
+
 Section Delivery.
   Variable cf : cfg.
   Variable app : strategy.
   Hypothesis app_benign : benign app.
   Hypothesis no_ping_timeout : zpos (c_ping_timeout cf) = None.
+
+  (* handing an event to a sending application: the library's writes are what they were, the transport still works *)
+  Lemma deliver_writes c e : writes (k_tr (fst (deliver app c e))) = writes (k_tr c).
+  Proof.
+    unfold deliver. rewrite do_actions_writes; [reflexivity|apply app_benign|exact I].
+  Qed.
+  Lemma deliver_wok c e : wok c -> wok (fst (deliver app c e)).
+  Proof. intros Hw. unfold deliver. apply do_actions_wok; [apply app_benign|exact Hw]. Qed.
 
   (* handing an event to a sending application: the event, then its sends; the core is untouched *)
   Lemma deliver_benign c e : exists c1, deliver app c e = (c1, SOk) /\ same_core c c1 /\
@@ -390,23 +512,32 @@ Section Delivery.
     - rewrite R3, M1, M0. reflexivity.
   Qed.
 
-  (* ---------- the same steps seen from the wire, for an application that writes nothing itself and when no automatic
-     Ping is due (ping_rate = 0) ---------- *)
+  (* ---------- the same steps seen from the wire -- the frames the LIBRARY writes -- for an application that may send whatever
+     it likes, when no automatic Ping is due (ping_rate = 0) ---------- *)
   Section Wire.
-  Hypothesis app_passive : passive app.
   Hypothesis rate0 : c_ping_rate cf = 0%Z.
 
-  Lemma deliver_passive c e : deliver app c e = (emit (TEv e) c, SOk).
-  Proof. unfold deliver. rewrite app_passive. reflexivity. Qed.
+  (* (kept for the proofs about applications that do nothing at all) *)
+  Lemma deliver_passive (Pa : passive app) c e : deliver app c e = (emit (TEv e) c, SOk).
+  Proof. unfold deliver. rewrite Pa. reflexivity. Qed.
 
   Lemma regular_writes c : k_sent_close_time c = None ->
     writes (k_tr (fst (regular cf app c))) = writes (k_tr c) /\ (wok c -> wok (fst (regular cf app c))).
   Proof.
     intros Hs. unfold regular. destruct (negb (k_ready c)); [auto|].
-    rewrite !deliver_passive, no_ping_timeout, rate0. cbn [Z.eqb negb andb].
+    rewrite no_ping_timeout, rate0. cbn [Z.eqb negb andb].
     set (t := session_time c).
-    destruct (k_poll_start c) as [ps|]; [destruct (_ >=? _)%Z|]; cbn [fst snd k_sent_close_time emit set];
-      try rewrite Hs; destruct (zpos (c_close_timeout cf)); cbn [fst]; auto.
+    set (cp := c <| k_poll_start := Some t |>).
+    assert (Dp : writes (k_tr (fst (deliver app cp EvPoll))) = writes (k_tr c) /\ (wok c -> wok (fst (deliver app cp EvPoll)))).
+    { split; [rewrite deliver_writes; reflexivity|intros Hw; apply deliver_wok; exact Hw]. }
+    assert (Sp : snd (deliver app cp EvPoll) = SOk /\ k_sent_close_time (fst (deliver app cp EvPoll)) = None).
+    { destruct (deliver_benign cp EvPoll) as (c1 & E1 & (_&_&_&_&_&S6&_) & _). rewrite E1. cbn [fst snd]. split; [reflexivity|]. rewrite S6. exact Hs. }
+    destruct (k_poll_start c) as [ps|]; [destruct (_ >=? _)%Z|].
+    - destruct Dp as [D1 D2]. destruct Sp as [S1 S2]. destruct (deliver app cp EvPoll) as [c1 st1]. cbn [fst snd] in *. subst st1.
+      rewrite S2. destruct (zpos (c_close_timeout cf)); cbn [fst]; auto.
+    - rewrite Hs. destruct (zpos (c_close_timeout cf)); cbn [fst]; auto.
+    - destruct Dp as [D1 D2]. destruct Sp as [S1 S2]. destruct (deliver app cp EvPoll) as [c1 st1]. cbn [fst snd] in *. subst st1.
+      rewrite S2. destruct (zpos (c_close_timeout cf)); cbn [fst]; auto.
   Qed.
 
   Definition ev_reply (e : ev) : list (N * bytes) := match e with EvPing p => [(OP_PONG, p)] | _ => [] end.
@@ -423,12 +554,14 @@ Section Delivery.
         destruct (send_frame_ok c OP_PONG payload ltac:(discriminate) ltac:(reflexivity) ltac:(lia) Hcl Hcg Hw) as (c0 & E0 & W0 & K0).
         destruct (send_frame_core c OP_PONG false payload ltac:(discriminate)) as [(_&_&_&_&_&S6&_) _].
         rewrite E0 in *. cbn [fst] in S6. exists c0. split; [reflexivity|]. split; [exact K0|]. split; [exact W0|congruence]. }
-    destruct O as (c0 & E0 & K0 & W0 & S0). rewrite E0. rewrite deliver_passive.
-    assert (Hs0 : k_sent_close_time (emit (TEv e) c0) = None) by exact S0.
-    destruct (regular_writes (emit (TEv e) c0) Hs0) as [R1 R2].
-    destruct (regular_quiet (emit (TEv e) c0) Hs0) as (Q1 & _).
-    destruct (regular cf app (emit (TEv e) c0)) as [c2 st2]. cbn [fst snd] in *. subst st2.
-    split; [apply R2; exact K0|]. rewrite R1. exact W0.
+    destruct O as (c0 & E0 & K0 & W0 & S0). rewrite E0.
+    destruct (deliver_benign c0 e) as (c1 & E1 & (_&_&_&_&_&S6&_) & _).
+    pose proof (deliver_writes c0 e) as DW. pose proof (deliver_wok c0 e K0) as DK. rewrite E1 in *. cbn [fst] in DW, DK.
+    assert (Hs1 : k_sent_close_time c1 = None) by congruence.
+    destruct (regular_writes c1 Hs1) as [R1 R2].
+    destruct (regular_quiet c1 Hs1) as (Q1 & _).
+    destruct (regular cf app c1) as [c2 st2]. cbn [fst snd] in *. subst st2.
+    split; [apply R2; exact DK|]. rewrite R1, DW. exact W0.
   Qed.
   End Wire.
 End Delivery.
@@ -538,12 +671,12 @@ Section Delivery2.
     (match e with EvPing p => blen p <= 125 | EvClosing _ _ | EvClosed _ _ | EvReady _ _ => False | _ => True end) ->
     exists c1, feed_yield cf app c e (fun c1 => (c1, SOk)) = (c1, SOk) /\ same_core c c1 /\
                msg_events (k_tr c1) = (if is_msg_ev e then [e] else []) ++ msg_events (k_tr c) /\
-               (passive app -> c_ping_rate cf = 0%Z -> c_auto_pong cf = true -> k_closed c = false -> k_closing c = false -> wok c ->
+               (c_ping_rate cf = 0%Z -> c_auto_pong cf = true -> k_closed c = false -> k_closing c = false -> wok c ->
                 wok c1 /\ writes (k_tr c1) = ev_reply e ++ writes (k_tr c)).
   Proof.
     intros Hs He. unfold feed_yield.
     destruct (in_feed_yield_msg cf app app_benign no_ping_timeout c e Hs He) as (A & B & C).
-    pose proof (fun pa r a cl cg w => in_feed_yield_writes cf app app_benign no_ping_timeout pa r c e a cl cg Hs w He) as D.
+    pose proof (fun r a cl cg w => in_feed_yield_writes cf app app_benign no_ping_timeout r c e a cl cg Hs w He) as D.
     destruct (in_feed_yield cf app c e) as [c1 st]. cbn [fst snd] in *. subst st. exists c1. auto.
   Qed.
 
@@ -586,7 +719,7 @@ Section Delivery2.
                k_sent_close_time c1 = None /\ k_frames c1 = open1 /\ Forall (fun f => f_rsv1 f = false) open1 /\
                data_head open1 /\
                msg_events (k_tr c1) = rev (map ev_of ms) ++ msg_events (k_tr c) /\ k_sock c1 = k_sock c /\
-               (passive app -> wfacts cf c c1 ms).
+               (wfacts cf c c1 ms).
   Proof.
     intros Hcl Hcg Hdf Hsc Hfr Hop Hdh Hr1 Href. unfold ref1 in Href.
     destruct (negb _) eqn:Eb; [discriminate|]. apply negb_false_iff in Eb. apply andb_true_iff in Eb as [Eop Elen].
@@ -600,12 +733,12 @@ Section Delivery2.
                k_sent_close_time c1 = None /\ k_frames c1 = open /\ Forall (fun f => f_rsv1 f = false) open /\
                data_head open /\
                msg_events (k_tr c1) = [e] ++ msg_events (k_tr c) /\ k_sock c1 = k_sock c /\
-               (passive app -> c_ping_rate cf = 0%Z -> c_auto_pong cf = true -> wok c -> wok c1 /\ writes (k_tr c1) = ev_reply e ++ writes (k_tr c))).
+               (c_ping_rate cf = 0%Z -> c_auto_pong cf = true -> wok c -> wok c1 /\ writes (k_tr c1) = ev_reply e ++ writes (k_tr c))).
     { intros e m Hc Hb Hm He Hme. unfold on_item, stream_frame. rewrite Hc, Hb, Hm.
       destruct (yield_plain c e Hsc He) as (c1 & E1 & (S1&S2&S3&S4&S5&S6&S7&S8) & M1 & W1). rewrite E1, Hme in *.
       exists c1. split; [reflexivity|].
-      assert (Wf : passive app -> c_ping_rate cf = 0%Z -> c_auto_pong cf = true -> wok c -> wok c1 /\ writes (k_tr c1) = ev_reply e ++ writes (k_tr c))
-        by (intros Pa R A W; exact (W1 Pa R A Hcl Hcg W)).
+      assert (Wf : c_ping_rate cf = 0%Z -> c_auto_pong cf = true -> wok c -> wok c1 /\ writes (k_tr c1) = ev_reply e ++ writes (k_tr c))
+        by (intros R A W; exact (W1 R A Hcl Hcg W)).
       repeat (split; [first [congruence | assumption]|]). exact Wf. }
     assert (Hctl125 : is_control (f_op f) = true -> blen (f_payload f) <= 125).
     { intros Hc. unfold validate_err in Ev. cbn [hdr_of h_op h_fin h_r1 h_r2 h_r3] in Ev. rewrite Hc in Ev.
@@ -637,7 +770,7 @@ Section Delivery2.
               exists c1, (let '(c2, r) := build_message c0 fs in
                           match r with inl m => on_message cf app c2 m | inr e => let '(c3, st) := raise_in_feed cf app c2 e in (c3, st, FBreak) end)
                          = (c1, SOk, FContinue) /\ same_core c0 c1 /\ open1 = [] /\
-                         msg_events (k_tr c1) = rev (map ev_of ms) ++ msg_events (k_tr c) /\ (passive app -> wfacts cf c0 c1 ms)).
+                         msg_events (k_tr c1) = rev (map ev_of ms) ++ msg_events (k_tr c) /\ (wfacts cf c0 c1 ms)).
     { intros fs f0 rest0 Efs Hfs Htx Hkind c0 Hc0 Htr Hrf Hfin. rewrite Hfin in Hrf.
       rewrite (build_plain c0 fs f0 rest0 Efs Hfs). cbv zeta.
       assert (Hs0 : k_sent_close_time c0 = None) by (destruct Hc0 as (_&_&_&_&_&S&_); congruence).
@@ -652,12 +785,12 @@ Section Delivery2.
         unfold on_message.
         destruct (yield_plain c0 (EvText (payload_of fs)) Hs0 I) as (c1 & E1 & S1 & M1 & W1). rewrite E1.
         exists c1. split; [reflexivity|]. split; [exact S1|]. split; [reflexivity|]. split; [rewrite M1, Htr; reflexivity|].
-        intros Pa R A W. exact (W1 Pa R A Hcl0 Hcg0 W).
+        intros R A W. exact (W1 R A Hcl0 Hcg0 W).
       - rewrite Htx in Hkind. cbn [orb] in Hkind. rewrite Hkind. inversion Hrf; subst ms open1.
         unfold on_message.
         destruct (yield_plain c0 (EvBinary (payload_of fs)) Hs0 I) as (c1 & E1 & S1 & M1 & W1). rewrite E1.
         exists c1. split; [reflexivity|]. split; [exact S1|]. split; [reflexivity|]. split; [rewrite M1, Htr; reflexivity|].
-        intros Pa R A W. exact (W1 Pa R A Hcl0 Hcg0 W). }
+        intros R A W. exact (W1 R A Hcl0 Hcg0 W). }
     unfold on_item, stream_frame. rewrite Ectl, Hfr.
     destruct open as [|o0 orest].
     - (* first frame of a data message *)
@@ -702,15 +835,15 @@ Section Delivery2.
           unfold on_message.
           destruct (yield_plain c0 (EvText (payload_of ((o0 :: orest) ++ [f]))) Hs0 I) as (c1 & E1 & (S1&S2&S3&S4&S5&S6&S7&S8) & M1 & W1). rewrite E1.
           exists c1. split; [reflexivity|]. cbn in S1, S2, S3, S4, S5, S6, S8.
-          assert (Wf : passive app -> wok c -> c_ping_rate cf = 0%Z -> c_auto_pong cf = true -> wok c1 /\ writes (k_tr c1) = writes (k_tr c))
-            by (intros Pa W R A; exact (W1 Pa R A Hcl Hcg W)).
+          assert (Wf : wok c -> c_ping_rate cf = 0%Z -> c_auto_pong cf = true -> wok c1 /\ writes (k_tr c1) = writes (k_tr c))
+            by (intros W R A; exact (W1 R A Hcl Hcg W)).
           repeat split; try congruence; try constructor; try exact I; try (rewrite M1; reflexivity); try (apply Wf; assumption).
         * cbn [orb] in Hdh. rewrite Hdh. inversion Href; subst ms open1.
           unfold on_message.
           destruct (yield_plain c0 (EvBinary (payload_of ((o0 :: orest) ++ [f]))) Hs0 I) as (c1 & E1 & (S1&S2&S3&S4&S5&S6&S7&S8) & M1 & W1). rewrite E1.
           exists c1. split; [reflexivity|]. cbn in S1, S2, S3, S4, S5, S6, S8.
-          assert (Wf : passive app -> wok c -> c_ping_rate cf = 0%Z -> c_auto_pong cf = true -> wok c1 /\ writes (k_tr c1) = writes (k_tr c))
-            by (intros Pa W R A; exact (W1 Pa R A Hcl Hcg W)).
+          assert (Wf : wok c -> c_ping_rate cf = 0%Z -> c_auto_pong cf = true -> wok c1 /\ writes (k_tr c1) = writes (k_tr c))
+            by (intros W R A; exact (W1 R A Hcl Hcg W)).
           repeat split; try congruence; try constructor; try exact I; try (rewrite M1; reflexivity); try (apply Wf; assumption).
       + assert (Hopen : ms = [] /\ open1 = (o0 :: orest) ++ [f]).
         { change (is_text_msg ((o0 :: orest) ++ [f])) with (f_op o0 =? OP_TEXT) in Href.
@@ -846,7 +979,7 @@ Section Delivery3.
     ref_messages open fs = Some (ms, open') ->
     exists c', feedf cf app c (encode_all fs lfs) = (c', SOk) /\ idle c' open' /\ data_head open' /\
                msg_events (k_tr c') = rev (map ev_of ms) ++ msg_events (k_tr c) /\ k_sock c' = k_sock c /\
-               (passive app -> wfacts cf c c' ms).
+               (wfacts cf c c' ms).
   Proof.
     induction fs as [|f rest IH]; intros lfs c open ms open' Hidle Hdh Hpl Hforms Href.
     - destruct lfs; [|contradiction]. cbn in Href. inversion Href; subst ms open'. cbn [encode_all].
@@ -854,7 +987,7 @@ Section Delivery3.
       rewrite feedf_unfold by (eapply at_boundary_ok; exact Hab). unfold feed_body. rewrite Hcl.
       rewrite fp_pull_unfold by (eapply at_boundary_ok; exact Hab). unfold pull_body.
       rewrite set_ps_same. exists c. split; [reflexivity|]. split; [exact Hidle|]. split; [exact Hdh|].
-      split; [reflexivity|]. split; [reflexivity|intros _; apply wfacts_refl].
+      split; [reflexivity|]. split; [reflexivity|apply wfacts_refl].
     - destruct lfs as [|lf lfs]; [contradiction|]. destruct Hforms as [Hform Hforms].
       inversion Hpl as [|? ? Hpf Hprest]; subst.
       cbn [ref_messages] in Href.
@@ -875,9 +1008,9 @@ Section Delivery3.
       { unfold idle. repeat split; auto. exists (u_after f (is_text_msg open) u u'). split.
         - rewrite S1. cbn. rewrite <- Hita. exact Hab'.
         - exact Hts. }
-      assert (S11' : passive app -> wfacts cf c c1 ms1) by exact S11.
+      assert (S11' : wfacts cf c c1 ms1) by exact S11.
       exists c'. split; [exact Efeed|]. split; [exact Hidle'|]. split; [exact Hdh'|].
-      split; [|split; [rewrite Hsock, S10; reflexivity|intros Pa; eapply wfacts_trans; [exact (S11' Pa)|exact (Hw' Pa)]]].
+      split; [|split; [rewrite Hsock, S10; reflexivity|eapply wfacts_trans; [exact S11'|exact Hw']]].
       rewrite Hmsgs, S9. cbn. rewrite map_app, rev_app_distr, app_assoc. reflexivity.
   Qed.
 
@@ -890,7 +1023,7 @@ Section Delivery3.
     ref_messages open fs = Some (ms, open') -> concat ds = encode_all fs lfs ->
     exists c', feed_chunks cf app c ds = (c', SOk) /\ idle c' open' /\ data_head open' /\
                msg_events (k_tr c') = rev (map ev_of ms) ++ msg_events (k_tr c) /\ k_sock c' = k_sock c /\
-               (passive app -> wfacts cf c c' ms).
+               (wfacts cf c c' ms).
   Proof.
     intros Hi Hd Hp Hf Hr Hc. rewrite feed_chunks_concat by (eapply idle_ok; exact Hi). rewrite Hc.
     eapply deliver_frames; eauto.
@@ -898,14 +1031,14 @@ Section Delivery3.
   (* C14 for a whole stream: exactly one Pong per Ping, with the Ping's payload, in the order the Pings arrived, and nothing
      else is written by the library -- whatever the fragmentation, the interleaving and the cut into reads *)
   Corollary pongs_in_order fs lfs ds c open ms open' :
-    passive app -> c_auto_pong cf = true -> c_ping_rate cf = 0%Z ->
+    c_auto_pong cf = true -> c_ping_rate cf = 0%Z ->
     idle c open -> data_head open -> Forall plain fs -> forms_ok fs lfs ->
     ref_messages open fs = Some (ms, open') -> concat ds = encode_all fs lfs -> wok c ->
     exists c', feed_chunks cf app c ds = (c', SOk) /\ wok c' /\ writes (k_tr c') = rev (pong_replies ms) ++ writes (k_tr c).
   Proof.
-    intros Pa Ha Hr Hi Hd Hp Hf Href Hc Hw.
+    intros Ha Hr Hi Hd Hp Hf Href Hc Hw.
     destruct (deliver_frames_chunked fs lfs ds c open ms open' Hi Hd Hp Hf Href Hc) as (c' & E & _ & _ & _ & _ & W).
-    destruct (W Pa Hr Ha Hw) as [W1 W2]. exists c'. auto.
+    destruct (W Hr Ha Hw) as [W1 W2]. exists c'. auto.
   Qed.
 End Delivery3.
 
@@ -917,8 +1050,38 @@ Corollary pongs_in_order_passive cf app : passive app -> zpos (c_ping_timeout cf
   exists c', feed_chunks cf app c ds = (c', SOk) /\ wok c' /\ writes (k_tr c') = rev (pong_replies ms) ++ writes (k_tr c).
 Proof.
   intros Pa Hz fs lfs ds c open ms open' Ha Hr Hi Hd Hp Hf Href Hc Hw.
-  exact (pongs_in_order cf app (passive_benign app Pa) Hz fs lfs ds c open ms open' Pa Ha Hr Hi Hd Hp Hf Href Hc Hw).
+  exact (pongs_in_order cf app (passive_benign app Pa) Hz fs lfs ds c open ms open' Ha Hr Hi Hd Hp Hf Href Hc Hw).
 Qed.
+
+(* ... hence, in everything the client put on the wire -- the application's own frames included -- the Pongs are there, in the
+   order of the Pings *)
+Corollary pongs_among_all_writes cf app : benign app -> zpos (c_ping_timeout cf) = None ->
+  forall fs lfs ds c open ms open',
+  c_auto_pong cf = true -> c_ping_rate cf = 0%Z ->
+  idle c open -> data_head open -> Forall plain fs -> forms_ok fs lfs ->
+  ref_messages open fs = Some (ms, open') -> concat ds = encode_all fs lfs -> wok c ->
+  exists c', feed_chunks cf app c ds = (c', SOk) /\ subseq (rev (pong_replies ms) ++ writes (k_tr c)) (all_writes (k_tr c')).
+Proof.
+  intros Hb Hz fs lfs ds c open ms open' Ha Hr Hi Hd Hp Hf Href Hc Hw.
+  destruct (pongs_in_order cf app Hb Hz fs lfs ds c open ms open' Ha Hr Hi Hd Hp Hf Href Hc Hw) as (c' & E & _ & W).
+  exists c'. split; [exact E|]. rewrite <- W. apply writes_subseq.
+Qed.
+
+(* an application that answers every text message with two frames of its own and every Ping with a Ping is such an application *)
+Definition chatty : strategy := fun tr =>
+  match tr with
+  | TEv (EvText p) :: _ => [ACall (CSendText p false); ACall (CSendBinary p true)]
+  | TEv (EvPing p) :: _ => [ACall (CSendPing p)]
+  | _ => []
+  end.
+Lemma chatty_benign : benign chatty.
+Proof.
+  intros tr. unfold chatty. destruct tr as [|[e| | | | | | | | | |] r]; try constructor.
+  destruct e; repeat constructor.
+Qed.
+Lemma chatty_not_passive : ~ passive chatty.
+Proof. intros H. specialize (H [TEv (EvPing [])]). discriminate. Qed.
+
 
 (* ====================================================================================================== *)
 (* C01 at the level of the event loop: reads that cut the stream anywhere (also inside a frame), any waiting times,
